@@ -2,8 +2,10 @@ package main
 
 import (
 	"bufio"
+	"bytes"
 	"fmt"
 	"os"
+	"runtime/debug"
 	"sort"
 	"sync/atomic"
 
@@ -131,11 +133,15 @@ func (h *H) execBatch(b *tbatch) error {
 // Generator.
 
 type genOpts struct {
-	mergeW   int // weight of Merge among ops (Set 55, Del 25)
-	childPct int // % chance that a batch carries child ops
-	allocPct int
-	bigKey   bool
-	nilMerge bool // Merge operand "!" makes FullMerge return nil
+	mergeW       int // weight of Merge among ops (Set 55, Del 25)
+	childPct     int // % chance that a batch carries child ops
+	allocPct     int
+	bigKey       bool
+	persistHeavy bool
+	wideFirst    bool // first batch touches every key, later ones one or two
+	blind        bool // no observation (hence no read) between labels
+	bigFirst     bool // the first batch carries one large value: later small rounds are then spliced by leveled (partial) compaction
+	nilMerge     bool // Merge operand "!" makes FullMerge return nil
 }
 
 var baseUniverse = [][]byte{
@@ -150,6 +156,7 @@ type gen struct {
 	o        genOpts
 	universe [][]byte
 	vctr     int
+	nops     int
 }
 
 func (g *gen) value() []byte {
@@ -166,6 +173,16 @@ func (g *gen) value() []byte {
 
 func (g *gen) ops(max int) []bop {
 	n := g.r.intn(max + 1)
+	if g.o.wideFirst {
+		// one wide batch first, narrow ones afterwards: the merger then leaves the old, large
+		// segment alone (calcTargetTopLevel) and it travels down to the persister unmerged
+		if g.nops == 0 {
+			n = len(g.universe)
+		} else {
+			n = 1 + g.r.intn(2)
+		}
+		g.nops++
+	}
 	perm := make([]int, len(g.universe))
 	for i := range perm {
 		perm[i] = i
@@ -186,6 +203,8 @@ func (g *gen) ops(max int) []bop {
 			v := g.value()
 			if g.o.nilMerge && g.r.chance(1, 8) {
 				v = []byte("!")
+			} else if g.r.chance(1, 8) {
+				v = []byte("=") // the operator returns the existing value as it is
 			}
 			out = append(out, bop{'m', k, v})
 		}
@@ -237,10 +256,68 @@ type collRun struct {
 	held     []heldSnap
 	nextSnap int
 	hist     map[string]int // label histogram
+	blind    bool           // observe only at reopen and at the end of the case
+	kept     []keptValue    // values returned by copying Gets, with a private copy of each
+	reported map[string]bool
+}
+
+// keptValue: a value a copying Get returned (the slice itself) and what it
+// held at that moment; it must stay intact whatever happens afterwards,
+// including the close of snapshot, collection and store.
+type keptValue struct {
+	got, want []byte
+	what      string
+}
+
+// retainHook, when set, receives every value a copying Get of the running case returned.
+var retainHook func(what string, v []byte)
+
+func (cr *collRun) retain(what string, v []byte) {
+	if v != nil && len(cr.kept) < 800 {
+		cr.kept = append(cr.kept, keptValue{v, cp(v), what})
+	}
+}
+
+func (cr *collRun) violation(kind, detail string) {
+	if cr.reported == nil {
+		cr.reported = map[string]bool{}
+	}
+	if cr.reported[kind] {
+		return
+	}
+	cr.reported[kind] = true
+	cr.emit(L("specviolation", kind, fmt.Sprintf("%q", detail)))
+}
+
+// checkIntact compares every retained value with its private copy; reading a
+// value that aliases an unmapped file faults, which is reported as well.
+func (cr *collRun) checkIntact(when string) {
+	bad := ""
+	func() {
+		old := debug.SetPanicOnFault(true)
+		defer debug.SetPanicOnFault(old)
+		defer func() {
+			if r := recover(); r != nil {
+				bad = fmt.Sprintf("reading a value returned by a copying Get faults %s: %v", when, r)
+			}
+		}()
+		for _, k := range cr.kept {
+			if !bytes.Equal(k.got, k.want) {
+				bad = fmt.Sprintf("value returned by a copying %s changed %s: was %q, now %q", k.what, when, k.want, k.got)
+				return
+			}
+		}
+	}()
+	if bad != "" {
+		cr.violation("spec:copied-value-not-intact", bad)
+	}
 }
 
 func (cr *collRun) obs() sx {
 	h := cr.h
+	if was := atomic.SwapInt32(&moss.VerifShapeOnly, 0); was != 0 {
+		defer atomic.StoreInt32(&moss.VerifShapeOnly, was)
+	}
 	d := moss.VerifDumpCollection(h.coll)
 	out := []sx{"obs", dumpSx(d)}
 	ss, err := h.coll.Snapshot()
@@ -257,6 +334,11 @@ func (cr *collRun) obs() sx {
 			cg = append(cg, L(k, errSx(err)))
 		} else {
 			cg = append(cg, L(k, v))
+			cr.retain("Collection.Get", v)
+		}
+		v2, err2 := h.coll.Get(k, moss.ReadOptions{NoCopyValue: true})
+		if (err == nil) != (err2 == nil) || !bytes.Equal(v, v2) || (v == nil) != (v2 == nil) {
+			cr.violation("spec:nocopy-differs", fmt.Sprintf("Collection.Get(%q): copying %q, NoCopyValue %q", k, v, v2))
 		}
 	}
 	out = append(out, cg)
@@ -297,7 +379,17 @@ func (cr *collRun) emit(v sx) {
 }
 
 func (cr *collRun) step(label sx) {
+	if cr.blind {
+		// no read between the labels: reads sort deferred-sort segments and fill caches, which
+		// would hide what happens to segments nobody has looked at; the model is stepped all the
+		// same and everything is compared at the next observed label (reopen, end of case)
+		if ls, ok := label.([]sx); ok && len(ls) > 0 && ls[0] != "reopen" && ls[0] != "final" {
+			cr.emit(L("step", label, L("noobs")))
+			return
+		}
+	}
 	cr.emit(L("step", label, cr.obs()))
+	cr.checkIntact("after a later step")
 }
 
 func isEmptyStack(s *moss.VerifStack) bool {
@@ -331,6 +423,14 @@ func runCollCase(w *bufio.Writer, id int, seed uint64, cfg Config, nLabels int, 
 		g.universe = append(append([][]byte{}, baseUniverse...), big)
 	}
 	cr := &collRun{h: h, w: w, g: g, hist: map[string]int{}}
+	retainHook = cr.retain
+	cr.blind = o.blind
+	if cr.blind {
+		// label decisions look at shapes only: dumping a segment's entries would sort it
+		atomic.StoreInt32(&moss.VerifShapeOnly, 1)
+		defer atomic.StoreInt32(&moss.VerifShapeOnly, 0)
+	}
+	defer func() { retainHook = nil }()
 	cr.emit(L("case", id, int64(seed), cfg.sx(), L("universe", universeSx(g.universe))))
 	if err := h.open(); err != nil {
 		cr.emit(L("error", fmt.Sprintf("%q", err.Error())))
@@ -354,6 +454,9 @@ func runCollCase(w *bufio.Writer, id int, seed uint64, cfg Config, nLabels int, 
 			maxPre = 10
 		}
 		wBatch := 40
+		if o.persistHeavy {
+			wBatch = 14 // more labels go to merger and persister: many persistence rounds per case
+		}
 		if topH >= maxPre {
 			wBatch = 0
 		}
@@ -365,6 +468,9 @@ func runCollCase(w *bufio.Writer, id int, seed uint64, cfg Config, nLabels int, 
 			wPers = 22
 		}
 		wNotify := 4
+		if isEmptyStack(d.Top) && isEmptyStack(d.Mid) && isEmptyStack(d.Base) {
+			wNotify = 14 // an idle merger cycle hands an empty stack to the persister
+		}
 		if !d.MergerAsleep {
 			wNotify = 0
 		}
@@ -387,6 +493,19 @@ func runCollCase(w *bufio.Writer, id int, seed uint64, cfg Config, nLabels int, 
 		switch r.pick([]int{wBatch, wMerger, wPers, wNotify, wSnap, wSnapClose, wReopen, wFail}) {
 		case 0:
 			b := g.nonEmptyBatch()
+			if o.bigFirst && cr.hist["batch"] == 0 {
+				big := bytes.Repeat([]byte("B"), 1500+r.intn(1000))
+				replaced := false
+				for i := range b.ops {
+					if string(b.ops[i].k) == "k0" {
+						b.ops[i] = bop{'s', []byte("k0"), big}
+						replaced = true
+					}
+				}
+				if !replaced {
+					b.ops = append(b.ops, bop{'s', []byte("k0"), big})
+				}
+			}
 			if err := h.execBatch(b); err != nil {
 				return fail(err)
 			}
@@ -512,6 +631,17 @@ func runCollCase(w *bufio.Writer, id int, seed uint64, cfg Config, nLabels int, 
 			hs.ss.Close()
 		}
 	}()
+	if cr.blind {
+		cr.blind = false
+		h.coll.(interface {
+			NotifyMerger(string, bool) error
+		}).NotifyMerger("poke", false)
+		if err := h.quiesce(); err != nil {
+			return fail(err)
+		}
+		cr.step(L("notify", "poke")) // the first full observation of a blind case
+		cr.blind = o.blind
+	}
 	inflight := h.parkedAt("persister") == "persister:begin"
 	choice, err := h.closeAllObserved(inflight)
 	if err != nil {
@@ -527,6 +657,12 @@ func runCollCase(w *bufio.Writer, id int, seed uint64, cfg Config, nLabels int, 
 			return fail(err)
 		}
 	}
+	for _, hs := range cr.held {
+		hs.ss.Close()
+	}
+	cr.held = nil
+	sleepMicros(2000)
+	cr.checkIntact("after snapshot, collection and store were closed")
 	cr.emit(L("end"))
 	return cr.hist, nil
 }
